@@ -180,11 +180,22 @@ func (c *ConstantStruct) Link(scope Scope, t TypeSpec) (ConstantValue, error) {
 				}
 				continue
 			}
+			if field.linkingDefault {
+				return nil, constantValueCastError{
+					Value:  c,
+					Type:   t,
+					Reason: referenceCycleError{Kind: "default value of field", Name: field.Name},
+				}
+			}
 			f = field.Default
 			c.Fields[field.Name] = f
+			field.linkingDefault = true
 		}
 
 		f, err := f.Link(scope, field.Type)
+		if !ok {
+			field.linkingDefault = false
+		}
 		if err != nil {
 			return nil, constantValueCastError{
 				Value: c,
